@@ -90,8 +90,7 @@ theorem InvH.step {s s' : State} (h : Step s s') (hP : InvP s) (hS : InvS s) (hF
            · rfl
          obtain ⟨s1, s2, s3, s4, sealRel, futexRel, rrun, gR, node, unsync⟩ := hi'
          have hot := ho t
-         constructor <;> intros <;> (try dsimp only at *) <;> first | assumption | grind [upd_apply, lists])
-      | (trace_state; sorry))
+         constructor <;> intros <;> (try dsimp only at *) <;> first | assumption | grind [upd_apply, lists]))
   | tick d =>
     obtain ⟨s1, s2, s3, s4, sealRel, futexRel, rrun, gR, node, unsync⟩ := hi hb
     constructor <;> intros <;> (try dsimp only at *) <;> first | assumption | grind [lists]
